@@ -768,15 +768,23 @@ impl World {
 			self.note_persist();
 			self.check_broadcasts();
 			// mine the latest spend of every unconfirmed output
+			// (only what really was broadcast can be mined)
 			let tracked = self.tracked();
-			let mut txs: Vec<Transaction> = Vec::new();
-			for t in tracked.iter() {
-				if let OutputSpendStatus::PendingFirstConfirmation { latest_spending_tx, .. } = &t.status {
-					if !txs.contains(latest_spending_tx) {
-						txs.push(latest_spending_tx.clone());
+			let mut include: Vec<usize> = Vec::new();
+			{
+				let log = self.bcast.0.lock().unwrap();
+				for t in tracked.iter() {
+					if !matches!(t.status, OutputSpendStatus::PendingThresholdConfirmations { .. }) {
+						if let Some(k) = log.iter().rposition(|tx| t.is_spent_in(tx)) {
+							if !include.contains(&k) {
+								include.push(k);
+							}
+						}
 					}
 				}
 			}
+			include.sort_by(|a, b| b.cmp(a));
+			let txs = self.minable(&include);
 			self.mine(txs);
 			self.check_state(false);
 		}
@@ -811,7 +819,10 @@ impl World {
 		}
 		let enabled = match a {
 			Action::Track { outs, channel, counterparty, exclude_static, delay_until_height } => {
-				if outs.is_empty() || outs.iter().any(|i| *i >= self.descs.len()) {
+				// (an output already spent in the chain the sweeper has seen is not handed to it
+				// again: the sweeper cannot learn about a spend that happened before it tracked)
+				let spent = self.spent_on_chain();
+				if outs.is_empty() || outs.iter().any(|i| *i >= self.descs.len() || spent.contains(&self.outpoints[*i])) {
 					false
 				} else {
 					let before: BTreeSet<usize> = self.prev_tracked.clone();
